@@ -306,8 +306,9 @@ Theorem c07_ssp_moving_cost_no_overflow : forall pb src a b, cost_dom pb ->
   Forall fits (moving_vals pb src a b) /\
   4 * Z.of_nat (nsnk pb) * Z.abs (pmoving pb src a b) <= 2147483647 + 2 * Z.of_nat (nsnk pb).
 Proof. exact moving_vals_fit. Qed.
-(* _partial (one step, under the label bound of a shortest-path tree: |sendingCost_[i]| <= about INT_MAX / 4; that the
-   labels stay within it along the run is the successive-shortest-path invariant left unproved by C13) *)
+(* _partial (one step, under the label bound of a shortest-path tree: |sendingCost_[i]| <= about INT_MAX / 4).  Kept as
+   first stated; that the labels stay within the bound (in fact within one scaled cost) along the whole run is now
+   proved from C13's invariants: c07_ssp_run_no_overflow below supersedes both *)
 Theorem c07_ssp_best_sink_no_overflow_partial : forall pb sc src,
   cost_dom pb -> label_dom pb sc -> Forall fits (best_sink_vals pb sc src).
 Proof. exact best_sink_vals_fit. Qed.
@@ -328,6 +329,47 @@ Example c07_ssp_nonvacuous :
   cost_dom ex_ssp_pb /\ label_dom ex_ssp_pb [536870913; -536870913; 0; 7] /\
   In (I32, 671088641) (best_sink_vals ex_ssp_pb [536870913; -536870913; 0; 7] 0).
 Proof. exact ssp_machine_nonvacuous. Qed.
+
+(* ---------- transportation.cpp: a WHOLE run of TransportationSuccessiveShortestPath (SspMachineRun.v) ---------- *)
+Require Import CV.SspF CV.SspSafety CV.SspOpt CV.SspMachineRun CV.SspMachineRunProofs.
+
+(* [F] ssp_run_vals tf pb lists, over the fuel-parametrised model of C13 (sspF tf; sspF tree_fuel = ssp), every value of
+   bestSink's sums (cpp:453), updateTree's relaxations (502), the moving-cost differences pushed by updateDestQueues (610) and
+   initQueues (575), the long long updates of allocations_ (537, 539, 545), remainingCapa_ (547), remaining (468) and the
+   negated demands (437), at every iteration of every loop of the run.  run_dom: check() accepts, demand <= capacity <= 2^62,
+   scaled costs in [0, INT_MAX / 2].  For EVERY round budget tf of updateTree (with tf below big_fuel the run is listed up to
+   the point where the model gives up).  The invariant that carries it is C13's (Inv /\ Jinv, Vinv): the labels are
+   potentials, hence within ONE scaled cost, not nbSinks - 1 of them. *)
+Theorem c07_ssp_run_no_overflow : forall tf pb, run_dom pb -> Forall fits (ssp_run_vals tf pb).
+Proof. exact ssp_run_vals_fit. Qed.
+(* [F] the same for the model of solve() that is tied to the C++ (ssp), under the guarantee of costsFromIntegers (cost_dom,
+   which implies half_dom); the run is complete: ssp returns (C13) *)
+Theorem c07_ssp_run_no_overflow_scaled : forall pb,
+  check_pb pb = true -> cost_dom pb -> Ssp.total_demand pb <= Ssp.total_capacity pb -> Ssp.total_capacity pb <= SUMB ->
+  Forall fits (ssp_run_vals tree_fuel pb) /\ exists x, ssp pb = Ok x.
+Proof. exact ssp_run_no_overflow. Qed.
+(* [F] the label bound behind it: at every solver state between two augmentations (C13's invariants) with a sink that has
+   room, every sendingCost_ is within [0, INT_MAX / 2] -- in particular never the INT_MAX sentinel when bestSink runs *)
+Theorem c07_ssp_labels_within_one_cost : forall pb,
+  (forall j, (j < nsnk pb)%nat -> 0 < cap_f pb j) -> half_dom pb -> forall s, Inv pb s -> Jinv pb s -> anyfree pb (rem s) ->
+  forall a, (a < nsnk pb)%nat -> 0 <= getZ (scost s) a <= HALF.
+Proof. exact labels_half. Qed.
+(* non-vacuity: 3 sinks, costs AT the costsFromIntegers bound, both chain walks and three updateTree calls; the largest
+   listed int is twice the largest cost *)
+Example c07_ssp_run_nonvacuous :
+  run_dom ex_run_pb /\ cost_dom ex_run_pb /\
+  ssp ex_run_pb = Ok [[2; 0; 0]; [0; 2; 0]; [1; 0; 2]] /\
+  length (ssp_run_vals tree_fuel ex_run_pb) = 62%nat /\
+  In (I32, 357913942) (ssp_run_vals tree_fuel ex_run_pb) /\ In (I32, -178956971) (ssp_run_vals tree_fuel ex_run_pb).
+Proof. exact ssp_run_nonvacuous. Qed.
+(* the cost bound INT_MAX / 2 of run_dom is sharp: with costs 2^30 (inside C13's domain, the ideal model returns the optimal
+   plan) bestSink computes 2^30 + 2^30.  UBSan reports exactly this on the C++ (design/C07.md). *)
+Example c07_ssp_run_half_sharp :
+  check_pb over_run_pb = true /\ (forall j i, 0 <= cost over_run_pb j i <= HALF + 1) /\
+  Ssp.total_demand over_run_pb <= Ssp.total_capacity over_run_pb <= SUMB /\
+  ssp over_run_pb = Ok [[1; 0]; [0; 1]] /\
+  In (I32, 2147483648) (ssp_run_vals tree_fuel over_run_pb) /\ ~ fits (I32, 2147483648).
+Proof. exact ssp_run_half_sharp. Qed.
 
 Print Assumptions c07_rowleg_cost_bound.
 Print Assumptions c07_abacus_try_no_overflow.
@@ -367,3 +409,6 @@ Print Assumptions c07_ssp_moving_cost_no_overflow.
 Print Assumptions c07_ssp_best_sink_no_overflow_partial.
 Print Assumptions c07_ssp_relax_no_overflow_partial.
 Print Assumptions c07_ssp_relax_never_adds_sentinel.
+Print Assumptions c07_ssp_run_no_overflow.
+Print Assumptions c07_ssp_run_no_overflow_scaled.
+Print Assumptions c07_ssp_labels_within_one_cost.
